@@ -55,6 +55,17 @@ func checkC11(c c11Case) (skip string, err error) {
 		v, f := e.Eval(c.Tree)
 		return e, v, f
 	}
+	faulty := map[string]bool{}
+	for k, p := range c.Store {
+		if p != nil && *p != "" {
+			if _, ok := ref.ParseNumber(*p, true); !ok {
+				faulty[k] = true
+			}
+		}
+	}
+	if c.Tree.UnsequencedFault(faulty) {
+		return "fault_unsequenced_with_side_effect", nil
+	}
 	ev, want, fault := mk(false)
 	ev2, want2, fault2 := mk(true)
 	if (fault == nil) != (fault2 == nil) || want != want2 || !sameStore(ev.Store, ev2.Store) {
@@ -143,8 +154,10 @@ func checkC11(c c11Case) (skip string, err error) {
 				}
 			}
 		}
-		if excluded["arith_assign_after_fault"] {
-			return "", nil // the store is not compared on faulting inputs while that finding is open
+		if excluded["arith_assign_after_fault"] && (ev.FaultInsideAsgRHS || ev2.FaultInsideAsgRHS) {
+			// while that finding is open the store is not compared when the fault
+			// arose inside the right-hand side of an assignment
+			return "excluded:arith_assign_after_fault", nil
 		}
 	} else {
 		if gerr != nil {
